@@ -133,6 +133,12 @@ def addToDefs (defsKids : List Node) (el : Node) : List Node :=
     let at_ := idx.getD 0
     elemsOnly.take at_ ++ [el] ++ elemsOnly.drop at_
 
+/-- the attribute half of `_apply_gradient_template`: a dataclass field the gradient lacks is taken from the template -/
+def inheritFields (fields : List String) (tmpl a : Attrs) : Attrs :=
+  fields.foldl (fun a f => match Attrs.get tmpl f with
+    | some v => if !Attrs.has a f then Attrs.set a f v else a
+    | none => a) a
+
 /-- `_apply_gradient_template(gradient)` on the current tree; `fuel` = recursion limit -/
 def applyGradientTemplate (gUid : Nat) : (fuel : Nat) → DocM Unit
   | 0 => fail .recursionError
@@ -158,11 +164,7 @@ def applyGradientTemplate (gUid : Nat) : (fuel : Nat) → DocM Unit
       let tmpl := (Node.findUid root tmpl.uid).getD tmpl
       let g := (Node.findUid root gUid).getD g
       let fields := ((Gen.gradientFields.lookup g.localTag).getD []).map (·.1)
-      let mut a := g.attrs
-      for f in fields do
-        match tmpl.getAttr f with
-        | some v => if !a.has f then a := a.set f v
-        | none => pure ()
+      let mut a := inheritFields fields tmpl.attrs g.attrs
       -- stops are copied only when the gradient has no children at all
       let mut kids := g.children
       if (g.children.filter Node.isLxmlNode).isEmpty then
